@@ -140,6 +140,11 @@ class Fn:
             self.calls[src] = (name, ty)
             if (name, ty) not in self.extra_params:
                 self.extra_params.append((name, ty))
+        for name, argts, rett in sig.get("extra", []):
+            ty = ("Fn", tuple(parse_type(a) for a in argts), parse_type(rett))
+            if (name, ty) not in self.extra_params:
+                self.extra_params.append((name, ty))
+        self.ignore_calls = set(sig.get("ignore_calls", []))
         self.env = {}
         self.notes = []
         self.has_fail = False
@@ -187,7 +192,7 @@ class Fn:
             self.loads(node.value, acc)
             return
         if isinstance(node, ast.Expr) and isinstance(node.value, ast.Call) and isinstance(node.value.func, ast.Attribute) \
-                and node.value.func.attr == "append" and self.vname(node.value.func.value):
+                and node.value.func.attr in ("append", "appendleft") and self.vname(node.value.func.value):
             for a in node.value.args:
                 self.loads(a, acc)
             return
@@ -252,6 +257,8 @@ class Fn:
                 return a, V
             if e.attr == "vecs" and ta == ("L", V):
                 return a, ta
+            if e.attr == "ps" and ta == V:           # a MultinomialDistribution is represented by its .ps
+                return a, V
             if e.attr == "size" and ta == V:
                 return "(zlen %s)" % a, Z
             if e.attr == "shape" and ta in (V, M):
@@ -329,12 +336,15 @@ class Fn:
         fail(e, "expression %s" % src)
 
     def comprehension(self, e):
-        if len(e.generators) != 1 or e.generators[0].ifs or e.generators[0].is_async:
+        if len(e.generators) != 1 or e.generators[0].is_async:
             fail(e, "comprehension shape")
         g = e.generators[0]
         it, tit = self.iterable(g.iter)
         saved = dict(self.env)
         pat = self.bind_pattern(g.target, elt_type(tit))
+        for cond in g.ifs:                       # [e for x in it if c] : map over filter
+            c = self.expr(cond, B)[0]
+            it = "(filter (fun %s => %s) %s)" % (pat, c, it)
         body, tb = self.expr0(e.elt)
         self.env = saved
         return "(map (fun %s => %s) %s)" % (pat, body, it), ("L", tb)
@@ -448,6 +458,8 @@ class Fn:
         args = e.args
         if fsrc in self.calls:
             name, ty = self.calls[fsrc]
+            if not e.keywords and len(args) == 1 and isinstance(args[0], ast.Starred) and len(ty[1]) == 1:
+                return "(%s %s)" % (name, self.expr(args[0].value, ty[1][0])[0]), ty[2]      # f(*list)
             if e.keywords or len(args) != len(ty[1]):
                 fail(e, "arity of %s" % fsrc)
             return "(%s %s)" % (name, " ".join(self.expr(a, t)[0] for a, t in zip(args, ty[1]))), ty[2]
@@ -461,8 +473,22 @@ class Fn:
             if set(given) != set(pn for pn, _ in tr["params"]):
                 fail(e, "arguments of %s" % fsrc)
             return "(%s F %s)" % (tr["coq"], " ".join(self.expr(given[pn], pt)[0] for pn, pt in tr["params"])), tr["ret"]
+        if isinstance(e.func, ast.Attribute) and e.func.attr == "keys" and not args and not e.keywords:
+            a, ta = self.expr0(e.func.value)
+            if ta[0] == "D":
+                return "(map fst %s)" % a, ("L", ("P", (Z, Z)))
+        if fsrc == "np.array" and len(args) == 1 and [k.arg for k in e.keywords] == ["dtype"] and ast.unparse(e.keywords[0].value) == "np.float64":
+            a, ta = self.expr0(args[0])
+            if ta == ("L", FT):
+                return a, V                       # np.array(list of floats, dtype=np.float64)
+            fail(e, "np.array of %s" % (ta,))
         if e.keywords:
             fail(e, "keyword arguments of %s" % fsrc)
+        if fsrc == "np.stack" and len(args) == 1:
+            a, ta = self.expr0(args[0])
+            if ta == ("L", V):
+                return "(np_vstack1 F %s)" % a, M
+            fail(e, "np.stack of %s" % (ta,))
         if fsrc == "len" and len(args) == 1:
             if isinstance(args[0], ast.Call) and ast.unparse(args[0].func) == "set" and len(args[0].args) == 1:
                 a = self.expr(args[0].args[0], ("L", Z))[0]
@@ -479,6 +505,10 @@ class Fn:
             if ta != ("L", Z):
                 fail(e, "sum of %s" % (ta,))
             return "(zsum %s)" % a, Z
+        if fsrc == "collections.deque" and not args:
+            if want is not None and want[0] == "L":
+                return "[]", want
+            return "[]", ("L?",)
         if fsrc == "dict" and not args:
             if want is not None and want[0] in ("D", "DZ"):
                 return "[]", want
@@ -554,9 +584,28 @@ class Fn:
                 elif isinstance(n, ast.AugAssign):
                     tg(n.target)
                 elif isinstance(n, ast.Expr) and isinstance(n.value, ast.Call) and isinstance(n.value.func, ast.Attribute) \
-                        and n.value.func.attr == "append":
+                        and n.value.func.attr in ("append", "appendleft"):
                     add(self.vname(n.value.func.value))
         return out
+
+    def has_ctrl(self, stmts, kinds):
+        """does any statement that can execute contain a node of `kinds`? (branches decided statically by an abstraction are not entered)"""
+        for st in stmts:
+            if isinstance(st, kinds):
+                return True
+            if isinstance(st, ast.If):
+                src = ast.unparse(st.test)
+                if src in self.abstr and self.abstr[src][1][0] == "static":
+                    if self.has_ctrl(st.body if self.abstr[src][1][1] else st.orelse, kinds):
+                        return True
+                    continue
+                if self.has_ctrl(st.body, kinds) or self.has_ctrl(st.orelse, kinds):
+                    return True
+            elif isinstance(st, (ast.For, ast.While, ast.With, ast.Try)):
+                for fld in ("body", "orelse", "finalbody"):
+                    if self.has_ctrl(getattr(st, fld, []) or [], kinds):
+                        return True
+        return False
 
     def tuple_of(self, names):
         return names[0] if len(names) == 1 else "(" + ", ".join(names) + ")"
@@ -661,8 +710,12 @@ class Fn:
                     return "let %s := dictz_set %s %s %s in\n  %s" % (n, n, k1, v, cont())
                 fail(s, "store into %s" % (t,))
             fail(s, "assignment target")
+        if isinstance(s, ast.Expr) and isinstance(s.value, ast.Call) and ast.unparse(s.value.func) in self.ignore_calls:
+            self.notes.append("dropped validation call %s [line %s]" % (ast.unparse(s.value.func), s.lineno))
+            return cont()
         if isinstance(s, ast.Expr) and isinstance(s.value, ast.Call) and isinstance(s.value.func, ast.Attribute) \
-                and s.value.func.attr == "append" and len(s.value.args) == 1:
+                and s.value.func.attr in ("append", "appendleft") and len(s.value.args) == 1:
+            left = s.value.func.attr == "appendleft"
             n = self.vname(s.value.func.value)
             if n is None:
                 fail(s, "append receiver")
@@ -672,6 +725,8 @@ class Fn:
             if n not in self.env or self.env[n][0] != "L":
                 fail(s, "append to %s" % n)
             v = self.expr(s.value.args[0], self.env[n][1])[0]
+            if left:
+                return "let %s := (%s :: %s) in\n  %s" % (n, v, n, cont())
             return "let %s := (%s ++ [%s]) in\n  %s" % (n, n, v, cont())
         if isinstance(s, ast.If):
             c, tc = self.expr0(s.test)
@@ -702,7 +757,7 @@ class Fn:
         if isinstance(s, ast.For):
             if s.orelse:
                 fail(s, "for-else")
-            if any(isinstance(n, (ast.Return, ast.Raise, ast.Break, ast.Continue)) for b in s.body for n in ast.walk(b)):
+            if self.has_ctrl(s.body, (ast.Return, ast.Raise, ast.Break, ast.Continue)):
                 fail(s, "return / raise / break / continue inside a loop")
             it, tit = self.iterable(s.iter)
             saved = dict(self.env)
@@ -856,6 +911,34 @@ TABLE = [
     dict(file="quara/qcircuit/experiment.py", **{"class": "Experiment"}, function="calc_prob_dists", coq_name="gen_experiment_calc_prob_dists",
          params={}, abstractions={"self.schedules": ("param", "schedules", "L[S]")},
          calls={"self.calc_prob_dist": ("calc_prob_dist", ["Z"], "V")}, vars={"prob_dists": "L[V]"}),
+    dict(file="quara/qcircuit/experiment.py", **{"class": "Experiment"}, function="calc_prob_dist", coq_name="gen_experiment_calc_prob_dist",
+         params={"schedule_index": "Z"},
+         # a schedule item is (kind code, index); objects are opaque ids; key_map[k][i] is the lookup of object i of kind k
+         abstractions={"self.schedules": ("param", "schedules", "L[L[P[Z,Z]]]"), "key_map[k][i]": ("expr", "(lookup k i)", "Z"),
+                       "not target": ("static", "false", "bool")},
+         extra=[("lookup", ["Z", "Z"], "Z")], calls={"op.compose_qoperations": ("compose", ["L[Z]"], "V")},
+         ignore_calls=["self._validate_schedule_index"], vars={"targets": "L[Z]"}),
+    # ---- which object of a schedule is the unknown
+    dict(file=STD + "standard_qst.py", **{"class": "StandardQst"}, function="_get_target_index", coq_name="gen_qst_get_target_index",
+         params={"schedule_index": "Z"}, drop=["experiment"], abstractions={"experiment.schedules": ("param", "schedules", "L[S]")}),
+    dict(file=STD + "standard_povmt.py", **{"class": "StandardPovmt"}, function="_get_target_index", coq_name="gen_povmt_get_target_index",
+         params={"schedule_index": "Z"}, drop=["experiment"], abstractions={"experiment.schedules": ("param", "schedules", "L[S]")}),
+    dict(file=STD + "standard_qpt.py", **{"class": "StandardQpt"}, function="_get_target_index", coq_name="gen_qpt_get_target_index",
+         params={"schedule_index": "Z"}, drop=["experiment"], abstractions={"experiment.schedules": ("param", "schedules", "L[S]")}),
+    dict(file=STD + "standard_qmpt.py", **{"class": "StandardQmpt"}, function="_get_target_index", coq_name="gen_qmpt_get_target_index",
+         params={"schedule_index": "Z"}, drop=["experiment"], abstractions={"experiment.schedules": ("param", "schedules", "L[S]")}),
+    # ---- calc_prob_dist(qope, j) = calc_prob_dists(qope)[j] ; the full-rank guard (np.linalg.matrix_rank uninterpreted)
+    dict(file=STD + "standard_qtomography.py", **{"class": "StandardQTomography"}, function="calc_prob_dist", coq_name="gen_calc_prob_dist",
+         params={"schedule_index": "Z"}, drop=["qope"], abstractions={"self.calc_prob_dists(qope)": ("param", "all_prob_dists", "L[V]")}),
+    dict(file=STD + "standard_qtomography.py", **{"class": "StandardQTomography"}, function="is_fullrank_matA", coq_name="gen_is_fullrank_matA",
+         params={}, abstractions={"self.calc_matA()": ("param", "matA", "M")}, calls={"np.linalg.matrix_rank": ("matrix_rank", ["M"], "Z")}),
+    # ---- per-schedule accessors: the values of the keys (j, x) of schedule j, in dictionary insertion order
+    dict(file=STD + "standard_qtomography.py", **{"class": "StandardQTomography"}, function="get_coeffs_0th_vec", coq_name="gen_get_coeffs_0th_vec",
+         params={"schedule_index": "Z"}, abstractions={"self._coeffs_0th": ("param", "dict_0th", "D[F]")},
+         calls={"self.get_coeffs_0th": ("get_coeffs_0th", ["Z", "Z"], "F")}, vars={"l": "L[F]"}),
+    dict(file=STD + "standard_qtomography.py", **{"class": "StandardQTomography"}, function="get_coeffs_1st_mat", coq_name="gen_get_coeffs_1st_mat",
+         params={"schedule_index": "Z"}, abstractions={"self._coeffs_0th": ("param", "dict_0th", "D[F]")},
+         calls={"self.get_coeffs_1st": ("get_coeffs_1st", ["Z", "Z"], "V")}, vars={"ll": "L[V]"}),
     # ---- stacking
     dict(file=STD + "standard_qtomography.py", **{"class": "StandardQTomography"}, function="calc_matA", coq_name="gen_calc_matA",
          params={}, abstractions={"self._coeffs_1st": ("param", "coeffs_1st", "D[V]")}),
